@@ -120,7 +120,8 @@ fn history(out: &mut Out, rng: &mut Rng, consensus: &Consensus, idx: u64, honest
     let plan = if rng.chance(2, 3) { legal_plan(rng, epochs, 2, 8, pbits) } else { flat_plan(epochs, rng.range(3, 9), rng.range(1, 30)) };
     let total = plan_blocks(&plan).min(160);
     if total < 12 { return; }
-    let main = SynChain::new(plan, total, 1);
+    let act = *rng.pick(&[0u64, 0, 1, 2]);
+    let main = SynChain::new_with_activation(plan, total, 1, act);
     let fork_at = rng.range(1, total - 4);
     let fork_extra = rng.range(2, (total - fork_at).min(40));
     let fork = main.fork(fork_at, fork_extra, 99, None);
